@@ -15,11 +15,17 @@ pub struct ValCfg {
     pub max_len: usize,
     /// allow the long strings / sequences of the boundary pools (63/64/65, 8191/8192)
     pub long: bool,
+    /// draw every string from a six-string alphabet (C09: repeats must be frequent)
+    pub small_alphabet: bool,
+    /// also draw values of #[transient] enum constructors (their encoding is an error by design)
+    pub transient_ctors: bool,
 }
+
+pub const SMALL_ALPHABET: [&str; 6] = ["", "a", "gone", "héllo wörld", "日本", "a rather long string that repeats, so that a back-reference is visibly shorter"];
 
 impl Default for ValCfg {
     fn default() -> Self {
-        ValCfg { non_bmp: false, max_len: 12, long: true }
+        ValCfg { non_bmp: false, max_len: 12, long: true, small_alphabet: false, transient_ctors: false }
     }
 }
 
@@ -135,6 +141,9 @@ pub fn int_range(ty: &Ty) -> Option<(i128, i128)> {
 pub const STRING_POOL: [&str; 10] = ["", "a", "ab", "z", "gone", "héllo", "日本語", "\u{0}", "\u{7ff}\u{800}\u{ffff}", "😀 non-bmp"];
 
 pub fn string_strategy(cfg: ValCfg) -> BoxedStrategy<String> {
+    if cfg.small_alphabet {
+        return select(SMALL_ALPHABET.to_vec()).prop_map(|s| s.to_string()).boxed();
+    }
     let long = if cfg.long {
         prop_oneof![
             3 => select(vec![62usize, 63, 64, 65, 127, 128]).prop_flat_map(|n| proptest::collection::vec(select(vec!['a', 'b', 'é', 'x']), n..=n).prop_map(|cs| {
@@ -419,7 +428,15 @@ fn decl_val(d: &Arc<crate::ty::Decl>, cfg: ValCfg, depth: u32, decls: &mut Vec<A
         }
         DeclBody::Enum { variants, .. } => {
             let mut alts: Vec<BoxedStrategy<Val>> = Vec::new();
+            // beyond the depth bound only constructors without recursive fields are drawn
+            let bottom = depth > REC_DEPTH_LIMIT && variants.iter().any(|v| !v.record.fields.iter().any(|f| contains_rec(&f.ty)));
             for (i, v) in variants.iter().enumerate() {
+                if bottom && v.record.fields.iter().any(|f| contains_rec(&f.ty)) {
+                    continue;
+                }
+                if v.transient && !cfg.transient_ctors && variants.iter().any(|x| !x.transient) {
+                    continue;
+                }
                 let ss: Vec<BoxedStrategy<Val>> = v.record.fields.iter().map(|f| field_val(&f.ty, cfg, depth + 1, decls)).collect();
                 alts.push(ss.prop_map(move |fs| Val::Variant(i, fs)).boxed());
             }
@@ -445,6 +462,7 @@ fn field_val(ty: &Ty, cfg: ValCfg, depth: u32, decls: &mut Vec<Arc<crate::ty::De
             Ty::Option(_) => Just(Val::None).boxed(),
             Ty::Vec(_) | Ty::LinkedList(_) => Just(Val::Seq(vec![])).boxed(),
             Ty::Box(inner) => field_val(inner, cfg, depth, decls),
+            Ty::Rec(_) => val_in(ty, cfg, depth, decls),
             other => panic!("recursive field {other:?} cannot bottom out"),
         };
     }
